@@ -97,7 +97,10 @@ def run(ctx):
                             err_edges.append((bi, t))
                     if not any(v == 1 for v, _ in targets):
                         err_edges.append((bi, otherwise))
-        ok = bool(err_edges) and all(not L.must_pass(wi, [t], lat) or t in lat for (_, t) in err_edges)
+        # path-wise: a path through an Err edge to the return passes the latch — before that edge (a later re-test of the
+        # same result, e.g. for dropping it) or after it
+        pre = wi.reachable(0, cut_blocks=lat)
+        ok = bool(err_edges) and all(bi not in pre or t in lat or not L.must_pass(wi, [t], lat) for (bi, t) in err_edges)
         ctx.check(ok, "C18-R1", "with_inner:every-error-latches", "every Err path of with_inner passes the latch before returning",
                   "an error path of Matcher::with_inner returns without latching the Error state", site=wi.where())
     # MatcherState::Normal constructed only in Matcher::new
@@ -158,6 +161,8 @@ def run(ctx):
         cm = cl.call_blocks(TP + "::compute_mask")
         eos = cl.call_blocks("toktrie::toktree::TokTrie::eos_token_set")
         def sr_ne(e):
+            if e[0] == "call" and e[1] == TP + "::stopped":
+                return True  # TokenParser::stopped() is `stop_reason != NotStopped` (checked below)
             return e[0] == "call" and e[1].endswith("::ne") and any("stop_reason" in repr(L.value_of(cl, a)) for a in e[2])
         ne = L.guard_edges(cl, sr_ne, False)
         still = L.dominated_by_cut(cl, cm, ne) if ne else cm
@@ -167,6 +172,12 @@ def run(ctx):
         te = L.guard_edges(cl, sr_ne, True)
         # the constant compared with is NotStopped
         proms = P.promoted_of(cl.id)
+        if cl.call_blocks(TP + "::stopped"):
+            proms = P.promoted_of(TP + "::stopped")
+            sb_ = ctx.body(TP + "::stopped")
+            ctx.check(L._returns_guard_value(sb_, [(lambda e: e[0] == "call" and e[1].endswith("::ne") and any(
+                L.is_field_read(TP, "stop_reason")(L.strip_views(a)) for a in e[2]), True)]), "C18-R2", "stopped():definition",
+                "TokenParser::stopped() returns stop_reason != <const>", "TokenParser::stopped() is no longer `stop_reason != NotStopped`", site=sb_.where())
         ctx.check(any("NotStopped" in repr(pb.rec["blocks"]) for pb in proms), "C18-R2", "compute_mask_or_eos:compares-with-NotStopped",
                   "stop_reason is compared with StopReason::NotStopped", "compute_mask_or_eos no longer compares stop_reason with NotStopped", site=cl.where())
         still = L.dominated_by_cut(cl, eos, te) if te else eos
